@@ -201,13 +201,25 @@ def analyse(obs: Obs, prog):
     ev = E()
     r = ev.eval_fn(S.methods["project"], S.module, S)
     w = W(S, "project")
-    sid, sc = skeleton(ev, "Scan.project")
-    ik, ic, _ = slots(sc, "Scan.project")
-    cin = sc.carry_in[1]
+    if len(ev.scans) != 1:
+        raise AnalysisError(f"Scan.project: expected exactly one lax.scan, found {len(ev.scans)}")
+    sid, sc = next(iter(ev.scans.items()))
+    # the carry threads the step counter, and the key either with it or as a loop invariant of the step function (it is never replaced: each step folds the
+    # counter into the SAME key)
+    if is_t(sc.init, "tuple"):
+        init_p, cin, cout_p = sc.init[1], sc.carry_in[1], (sc.carry_out[1] if is_t(sc.carry_out, "tuple") else ())
+    else:
+        init_p, cin, cout_p = (sc.init,), (sc.carry_in,), (sc.carry_out,)
+    is0 = lambda t: (is_call(t, "asarray", "array") and t[2] and t[2][0] == C(0)) or t == C(0)
+    cnts = [i for i, t in enumerate(init_p) if is0(t)]
+    keys_ = [i for i, t in enumerate(init_p) if t == P("key")]
+    if len(cnts) != 1 or len(keys_) > 1 or len(init_p) != len(cnts) + len(keys_) or len(cout_p) != len(init_p):
+        raise AnalysisError(f"Scan.project: cannot identify key/counter slots in {show(sc.init)[:200]}")
+    ic = cnts[0]
+    key_t = cin[keys_[0]] if keys_ else P("key")
     tin = ("attr", P("trace"), "inner")
-    pc = ("call", ("attr", ("elem", tin), "project"), (("call", G("jax.random.fold_in"), (cin[ik], cin[ic]), ()), P("selection")), ())
-    cout_p = sc.carry_out[1]
-    obs.add({"C10", "C12"}, "IDX-ALIGN", "Scan.project/carry", cout_p[ik] == cin[ik] and cout_p[ic] == ("bin", "+", cin[ic], C(1)), derived=sc.carry_out, expected="(key, idx + 1)", where=w)
+    pc = ("call", ("attr", ("elem", tin), "project"), (("call", G("jax.random.fold_in"), (key_t, cin[ic]), ()), P("selection")), ())
+    obs.add({"C10", "C12"}, "IDX-ALIGN", "Scan.project/carry", (not keys_ or cout_p[keys_[0]] == cin[keys_[0]]) and cout_p[ic] == ("bin", "+", cin[ic], C(1)), derived=sc.carry_out, expected="(key, idx + 1)  (or idx + 1 with the key as a loop invariant)", where=w)
     obs.add({"C10", "C12"}, "WEIGHT-PROJ", "Scan.project", r.ret == jsum(("stack", pc)) and sc.xs == tin, derived=r.ret, expected="sum over iterations of subtrace.project(key_i, selection) - the selection passes through the index level unchanged", where=w)
 
     # ---------------------------------------------------------------- edit_update / edit_regenerate
